@@ -281,7 +281,7 @@ func GenReq(t *rapid.T, idx int, o ReqOpts) (*wire.Req, *ReqInfo) {
 			r.LeadingZeros = rapid.IntRange(1, 3).Draw(t, "chunkZeroN")
 		}
 		if o.ChunkExt && rapid.IntRange(0, 5).Draw(t, "chunkExt") == 0 {
-			r.ChunkExt = rapid.SampledFrom([]string{";ext=1", ";seq=1;sig=\"a1b2\"", ";0", " ;x", ";n"}).Draw(t, "chunkExtText")
+			r.ChunkExt = rapid.SampledFrom([]string{";ext=1", ";seq=1;sig=\"a1b2\"", ";0", " ;x", ";n", "\t;a=b", " \t ; x=y", "\t"}).Draw(t, "chunkExtText")
 		}
 		if rapid.IntRange(0, 2).Draw(t, "trailers") == 0 {
 			nt := rapid.IntRange(1, 3).Draw(t, "nTrailers")
@@ -619,7 +619,7 @@ func GenResp(t *rapid.T, idx int, method string, o RespOpts) *wire.Resp {
 		}
 	}
 	if r.Framing == wire.FrChunked && o.ChunkExt && rapid.IntRange(0, 4).Draw(t, "respChunkExt") == 0 {
-		r.ChunkExt = rapid.SampledFrom([]string{";seq=1", ";seq=2;sig=\"a1b2\"", ";x"}).Draw(t, "respChunkExtText")
+		r.ChunkExt = rapid.SampledFrom([]string{";seq=1", ";seq=2;sig=\"a1b2\"", ";x", "\t;a=b", " \t"}).Draw(t, "respChunkExtText")
 	}
 	return r
 }
